@@ -56,9 +56,11 @@ impl DailyMutations {
     pub uninterp spec fn marks(&self) -> Set<int>;
     #[verifier::external_body]
     pub fn default() -> (r: DailyMutations) { unimplemented!() }
+    /// a successful write stored the marks gathered so far (a fact only this contract establishes)
     #[verifier::external_body]
-    pub fn write(&self, conn: &Connection) -> (r: std::result::Result<(), rusqlite::Error>) { unimplemented!() }
+    pub fn write(&self, conn: &Connection) -> (r: std::result::Result<(), rusqlite::Error>) ensures r is Ok ==> marks_stored(*self) { unimplemented!() }
 }
+pub uninterp spec fn marks_stored(d: DailyMutations) -> bool;
 // payloads of a batch: every write may fail; marking never fails
 macro_rules! payload {
     ($name:ident) => {
@@ -133,9 +135,13 @@ pub struct Txn { pub open: bool, pub marks_written: bool, pub commits: nat, pub 
 //@ insert body-start
         let ghost mut txn = Txn { open: false, marks_written: false, commits: 0, rollbacks: 0 };
         let ghost mut needed: Set<int> = Set::empty();      // the buckets the requests of this batch have marked so far
-//@ insert-each after-stmt "query.update_daily_logs(&mut daily_log);"
+// the buckets a request changes become NEEDED when its payload is written - not when it is marked: a request that is written and
+// not marked afterwards leaves `needed` outside the gathered marks
+//@ insert-each after-stmt "if let Err(e) = query.write(conn) {"
                     proof { needed = needed.union(own_marks(*query)); }
-//@ insert after-stmt "nti.update_daily_logs(&mut daily_log);"
+//@ insert after-stmt "if let Err(e) = query.delete(conn) {"
+                    proof { needed = needed.union(own_marks(*query)); }
+//@ insert after-stmt "if let Err(e) = nti.write(conn) {"
                         proof { needed = needed.union(own_marks(*nti)); }
 //@ insert before-stmt "if let Err(e) = EdgeDeletionEntry::delete_all(edges, &mut daily_log, conn) {"
                     let ghost edges0 = *edges;
@@ -148,7 +154,7 @@ pub struct Txn { pub open: bool, pub marks_written: bool, pub commits: nat, pub 
 //@ insert-each before-stmt "daily_log.write(conn)"
         // [every_mark_of_the_batch_is_written] the marks written with the transaction include the buckets marked by every request of the batch: nothing gathered earlier in the batch is dropped on the way
         assert(needed.subset_of(daily_log.marks()));
-//@ insert after-stmt "conn.execute(\"BEGIN TRANSACTION\", [])"
+//@ insert-each after-stmt "conn.execute(\"BEGIN TRANSACTION\", [])"
         proof { txn = Txn { open: true, ..txn }; }
 //@ insert-each after-stmt "conn.execute(\"ROLLBACK\", [])"
                         proof { txn = Txn { open: false, rollbacks: txn.rollbacks + 1, ..txn }; }
@@ -162,10 +168,12 @@ pub struct Txn { pub open: bool, pub marks_written: bool, pub commits: nat, pub 
         }
 //@ insert after-stmt "daily_log.write(conn)"
         proof { txn = Txn { marks_written: true, ..txn }; }
-//@ insert before-stmt "conn.execute(\"COMMIT\", [])"
+//@ insert-each before-stmt "conn.execute(\"COMMIT\", [])"
         // [marks_before_commit] the marks that make the daily log recompute are written inside the transaction, before COMMIT
         assert(txn.open && txn.marks_written && txn.commits == 0 && txn.rollbacks == 0);
-//@ insert after-stmt "conn.execute(\"COMMIT\", [])"
+        // [marks_stored_before_commit] .. and their write SUCCEEDED: a failed write of the marks never leads to COMMIT
+        assert(marks_stored(daily_log));
+//@ insert-each after-stmt "conn.execute(\"COMMIT\", [])"
         proof { txn = Txn { open: false, commits: txn.commits + 1, ..txn }; }
 //@ insert before-text "Ok(())"
         // [ok_means_exactly_one_commit] success is reported only after exactly one COMMIT, with no transaction left open
